@@ -183,11 +183,18 @@ func (ps *specParser) expr() Expr {
 			// last name is actually the type if followed by :: or ,; grammar: x, y T, z U :: body
 			// we parse "names... Type" where Type is an id (possibly with brackets)
 			// The loop above consumed names separated by commas; the type follows the last name.
-			tt := ps.next()
-			if tt.kind != "id" {
-				ps.fail("binder type expected, got %q", tt.text)
+			typ := ""
+			for {
+				pk := ps.peek()
+				if pk.kind == "id" || (pk.kind == "op" && (pk.text == "*" || pk.text == "[" || pk.text == "]" || pk.text == ".")) {
+					typ += ps.next().text
+					continue
+				}
+				break
 			}
-			typ := tt.text
+			if typ == "" {
+				ps.fail("binder type expected, got %q", ps.peek().text)
+			}
 			for _, n := range names {
 				vars = append(vars, Binder{n, typ})
 			}
